@@ -7,6 +7,10 @@ PAIRS = [('der', 'der'), ('der', 'cer'), ('der', 'ber'), ('cer', 'cer'), ('cer',
 ENC_MODE = {'der': ('der', True, 0), 'cer': ('cer', False, 1000)}
 
 CORPUS = [
+    # time values under explicit tags and as members: the canonical encoders write them like every other string
+    ("(tag e c 3 (str 24))", "(s 32303137303830313132303131325a)"),
+    ("(seq (r (tag e c 0 (str 23))) (r int))", "(seq (s 3137303830313132303131325a) (i 5))"),
+    ("(set (r (tag e a 1 (str 24))) (r (tag i c 2 (str 23))))", "(seq (s 32303137303830313132303131325a) (s 3137303830313132303131325a))"),
     ("(set (r (tag i c 0 real)) (r enum))", "(seq (real -3 2 128) (i -32769))"),      # D13
     ("(seq (o (seqof (seqof int))))", "(seq (of (of)))"),                                 # E3 leak
     ("int", "(i -32768)"),                                                                 # E5
